@@ -111,6 +111,13 @@ MUTATIONS = [
     ("c16-links-not-cleared", "scheduler/base.py", "            for p in self.jobspath.glob(\"*/*\"):\n                if p.is_symlink():", "            for p in self.jobspath.glob(\"*/*\"):\n                if False:", ["C16"]),
     ("c16-duplicate-kept-in-jobs", "scheduler/base.py", "                    if target.is_symlink():\n                        # Remove if duplicate\n                        p.unlink()", "                    if target.is_symlink():\n                        pass", ["C16"]),
     ("c16-link-to-xp-dir", "scheduler/base.py", "        path.symlink_to(job.path)", "        path.symlink_to(job.path.parent)", ["C16"]),
+    # C20
+    ("c20-deprecate-keeps-id", "core/types.py", "        self.identifier = parent.identifier\n        self._deprecated = True", "        self._deprecated = True", ["C20"]),
+    ("c20-cleanup-removes", "tools/jobs.py", "                        oldjobpath.rename(newjobpath)", "                        import shutil\n                        shutil.rmtree(oldjobpath)", ["C20"]),
+    ("c20-link-wrong-dir", "tools/jobs.py", "                        newjobpath.symlink_to(oldjobpath)", "                        newjobpath.symlink_to(oldjobpath.parent)", ["C20"]),
+    ("c20-revert-fix14", "core/objects.py", "                o.__xpm__.init_tasks = [\n                    objects[init_task_id]\n                    for init_task_id in definition.get(\"init-tasks\", [])\n                ]", "                pass", ["C20"]),
+    ("c20-dangling-not-replaced", "tools/jobs.py", "                if newjobpath.is_symlink() and not newjobpath.exists():\n                    newjobpath.unlink()", "                pass", ["C20"]),
+    ("c20-cleanup-deletes-links-only", "tools/jobs.py", "            if job_path.parent.is_symlink():\n                job_path.parent.unlink()\n                logger.info(\"Removing symlink %s\", job_path.parent)", "            if job_path.parent.is_symlink():\n                import shutil\n                shutil.rmtree(job_path.parent.resolve())\n                job_path.parent.unlink()", ["C20"]),
     # C19
     ("c19-perform-ignored", "cli/jobs.py", "            if perform:\n                cprint(\"Cleaning...\", \"red\")\n                rmtree(p)", "            if True:\n                cprint(\"Cleaning...\", \"red\")\n                rmtree(p)", ["C19"]),
     ("c19-clean-not-finished", "cli/jobs.py", "        if clean and info.state and info.state.finished():", "        if clean and info.state:", ["C19"]),
